@@ -12,6 +12,10 @@ CHECKS = {
          "Every program of up to D instructions over the value/failure alphabet is executed; per event the invocation sequence must equal the registration list exactly once each in one kernel step, every waiter receives the event's own tag or an exception of the same type and args, already-processed events resume in the same step, re-triggers raise RuntimeError, and run() raises exactly the failures no process was waiting for, at that instant.",
          "bounds: D<=6/7 with 2 initial processes (two alphabets), D<=5/6 with 3; <=4 processes",
          "DESIGN.md 3 C02"),
+ "C03": ("exhaustive enumeration of (program, split plan) pairs on the real kernel and of split plans over fixed network scenarios; trace equality with the uninterrupted run; cross-process digest comparison for hash seeds",
+         "For every kernel program of up to Dp instructions and 5 network scenarios the uninterrupted run is executed first; then every plan of up to S stops (step(), run(until=t) on and between due instants, a refused t<=now, run(until=event) for each event/process that succeeds) is executed on a fresh kernel with the same program and the concatenated trace, the state at each return (now, processed, nothing later observed) and the returned values are compared. Trace digests of all small programs and scenarios are compared across 13 fresh interpreter processes with different PYTHONHASHSEED values.",
+         "bounds: Dp<=4 S<=2 (quick); Dp<=5 S<=2 and Dp<=4 S<=3 (thorough); hash seeds are a fixed finite set, not enumerable",
+         "DESIGN.md 3 C03"),
  "C04": ("exhaustive enumeration of process programs with interrupts (peer, self, finished, not-yet-started victims) and victim reactions; per-victim FIFO ledger",
          "Every program of up to D instructions where processes interrupt each other at any instant (incl. the instant the victim's target is due) and an interrupted victim goes on or re-waits is executed; interrupts must arrive once, at the issue instant, in issue order, before any ordinary occurrence, never before the victim's first statement; refusals must raise RuntimeError; unique value tags expose any resumption by an abandoned target.",
          "bounds: D<=6/7 with 2 initial processes, D<=5/6 with 3; <=4 processes",
@@ -57,6 +61,10 @@ CHECKS = {
          "All FlowDemux/FIBDemux tables, output lists, end maps and flows of the stated grids, all hub populations/construction styles/senders and all splitter connection patterns are executed; FatTree structure is checked for k<=8/12; every (src,dst,shortest path) choice for k=2 and k=4 (848) with and without tcp has its generated FIB walked hop by hop and is simulated with bare FIBDemux+Port nodes and with FairPacketSwitch(WFQ) nodes whose flows share one class; flow pairs sharing a directed link are simulated.",
          "bounds: grids as listed in the evidence rule; k=4 pairs: first flow among the first 16 (quick) / all 240 endpoint choices (thorough); networkx trusted for graph bookkeeping",
          "DESIGN.md 3 C18"),
+ "C20": ("exhaustive enumeration of (program, wall-clock behaviour) pairs on the real RealtimeEnvironment under a virtual monotonic/sleep pair, deviation-bounded",
+         "Every kernel program of up to D instructions for every factor, initial time and strict setting is executed under every wall-clock behaviour with at most B deviations (compute time before a step incl. lag exactly at and 2^-10 above the limit, sleeps returning early/late, sync() calls); the log must equal the plain Environment's, no occurrence may be processed before its wall-clock due time, and the strict-mode RuntimeError must be raised exactly when the lag at step entry exceeds factor.",
+         "bounds: D<=3/4, deviation budget 2/3, sync offered before the first 3/6 steps; virtual clock owned through onl.sim.rt and time module names",
+         "DESIGN.md 3 C20"),
 }
 ALL = ["C%02d" % i for i in range(1, 21)]
 def main():
